@@ -15,6 +15,8 @@ import Upnp.Lemmas.C14Call
 import Upnp.Lemmas.C14Desc
 import Upnp.Lemmas.C14Svc
 import Upnp.Lemmas.C14Dev
+import Upnp.Lemmas.C14Schema
+import Upnp.Lemmas.C14Invalid
 import Upnp.Lemmas.C14Bridge
 import Upnp.Lemmas.C14DevBridge
 import Upnp.Props.C05
@@ -74,6 +76,25 @@ theorem invalid_request_rejected (fs : Facts) (stype : Str) (acts : List SAct) (
       · rename_i hs; rw [hs] at hinv; cases hinv
       · rfl
 
+/-- **Which requests are invalid — the classes of the property text, stated one by one** (each then
+    falls under `invalid_request_rejected`): a body that is not XML; no SOAP `Body`; an empty `Body`;
+    a `SOAPAction` header not of the form `type#action`; a header naming no action of the service;
+    a request that parses but carries a value its variable's schema rejects (out of range / not
+    allowed).  (Missing / unknown / unparseable argument elements are the `.bad` results of
+    `parseArgs`; they are exercised by the `example` below and the correspondence, not yet stated as
+    separate lemmas.) -/
+theorem invalid_classes (fs : Facts) (acts : List SAct) (r : Req) :
+    (r.body = none → invalidReq fs acts r = true)
+    ∧ (∀ root, r.body = some root → root.find (soapq "Body") = none → invalidReq fs acts r = true)
+    ∧ (∀ root b, r.body = some root → root.find (soapq "Body") = some b → b.kids = [] → invalidReq fs acts r = true)
+    ∧ ((∀ a b, splitHash (stripQuotes (r.soapAction.getD [])) ≠ [a, b]) → invalidReq fs acts r = true)
+    ∧ (∀ t name, splitHash (stripQuotes (r.soapAction.getD [])) = [t, name] →
+        acts.find? (fun a => a.name = name) = none → invalidReq fs acts r = true)
+    ∧ (∀ act kw, parseActionBody fs acts r = .ok act kw → ∀ a ∈ act.ins, ∀ v, PyDict.get? kw a.name = some v →
+        schemaOk fs a.var v = false → invalidReq fs acts r = true) :=
+  ⟨not_xml_invalid fs acts r, no_body_invalid fs acts r, empty_body_invalid fs acts r, bad_header_invalid fs acts r,
+   unknown_action_invalid fs acts r, fun act kw hp a ha v hv hs => schema_invalid fs acts r act kw hp a ha v hv hs⟩
+
 /-- the run-time judge accepts the model's answer to every invalid request -/
 theorem invalid_request_judged (fs : Facts) (stype : Str) (acts : List SAct) (h : Handler) (r : Req)
     (script : HandlerRes) (seen : Option (List (Str × Val)))
@@ -117,11 +138,14 @@ theorem handler_error_default (fs : Facts) (stype : Str) (acts : List SAct) (h :
     action object `cactOf fs sact` — the one `client_sees_definition` shows the factory builds from
     the served SCPD (same argument names, bound to the client's parse `clientVarOf` of each variable).
     For every service type and action name free of `#` and `"`, distinct in-argument names, every
-    argument assignment `args` that supplies each in-argument with a value which passes the client's
-    schema (`ArgsOk … (cactOf fs sact).ins`, so the client sends it) and the server's (`ArgsOk …
-    sact.ins`) and survives the codec (`pyInt_decOfInt` for the integer types, trivial for strings
+    argument assignment `args` that is **valid for the definition** — each in-argument gets a value
+    which passes the schema of the definition's variable (`ArgsOk … sact.ins`); that the client's
+    re-parsed variables then accept it too, so the client sends it, is *derived* (`argsOk_cactOf` from
+    `schemaOk_clientVarOf`, for well-formed variables `VarAgreeWF`: `VarWF` plus non-empty bound texts) —
+    and survives the codec (`pyInt_decOfInt` for the integer types, trivial for strings
     and booleans, recorded facts for float / date / time), and every handler result `vals` of
-    out-arguments with valid values (`ValsOk`):
+    out-arguments with valid values (`ValsOk`), returned as plain values or — the library's own idiom —
+    as the `UpnpStateVariable` objects holding them (`.retVars`):
     * the request written by the client's `create_request` is accepted by `_parse_action_body`,
       passes `validate_arguments`, and the handler is called with a dictionary holding exactly the
       caller's value for each in-argument and nothing else;
@@ -132,14 +156,16 @@ theorem call_roundtrip (fs : Facts) (stype : Str) (sacts : List SAct) (sact : SA
     (h1 : '#' ∉ stype) (h2 : '"' ∉ stype) (h3 : '#' ∉ sact.name) (h4 : '"' ∉ sact.name)
     (hfind : sacts.find? (fun a => a.name = sact.name) = some sact)
     (hnd : (sact.ins.map (·.name)).Nodup)
-    (hokC : ArgsOk fs args (cactOf fs sact).ins) (hokS : ArgsOk fs args sact.ins)
-    (hh : h sact.name (kwOf args sact) = .ret vals) (hv : ValsOk fs sact vals) :
+    (hw : ∀ a ∈ sact.ins, VarAgreeWF fs a.var) (hokS : ArgsOk fs args sact.ins)
+    (hh : h sact.name (kwOf args sact) = .ret vals ∨ ∃ asVar, h sact.name (kwOf args sact) = .retVars vals asVar)
+    (hv : ValsOk fs sact vals) :
     createRequest fs stype (cactOf fs sact) args = .ok (reqOf stype sact args)
     ∧ handlerInput fs sacts (reqOf stype sact args) = some (sact.name, kwOf args sact)
     ∧ (∀ a ∈ sact.ins, get? (kwOf args sact) a.name = get? args a.name)
     ∧ (∀ k, k ∉ sact.ins.map (·.name) → get? (kwOf args sact) k = none)
     ∧ clientCall fs stype (cactOf fs sact) (serverHandle fs stype sacts h) args = .ok (PyDict.ofList vals) := by
   obtain ⟨_, hp, hi⟩ := request_reaches_handler (acts := sacts) h1 h2 h3 h4 hfind hnd hokS
+  have hokC : ArgsOk fs args (cactOf fs sact).ins := argsOk_cactOf hw hokS
   have hc := createRequest_cactOf (stype := stype) hokC
   refine ⟨hc, hi, ?_, ?_, ?_⟩
   · intro a ha
@@ -156,7 +182,11 @@ theorem call_roundtrip (fs : Facts) (stype : Str) (sacts : List SAct) (sact : SA
     unfold clientCall
     rw [hc]
     simp only
-    rw [hs, hh]
+    have hr : renderResult fs stype sact (h sact.name (kwOf args sact)) = renderResult fs stype sact (.ret vals) := by
+      rcases hh with hh | ⟨asVar, hh⟩
+      · rw [hh]
+      · rw [hh]; exact renderResult_retVars hv asVar
+    rw [hs, hr]
     simp only [renderResult, responseKids_ok hv]
     rw [clientDecode_cactOf]
     exact response_reaches_caller hv
@@ -177,6 +207,49 @@ example :
     ∧ clientCall [] stype (cactOf [] act) (serverHandle [] stype [act] (fun _ _ => .err (some 714))) args
         = .actionError (some 714) (some 500) := by
   decide +kernel
+
+/-- the hypotheses of `call_roundtrip` are jointly satisfiable on that shape: the variables are
+    `VarAgreeWF` (no codec hypothesis: `varAgreeWF_modelled`), the arguments valid for the definition
+    (`ArgsOk` on the server's action only), the results valid (`ValsOk`) -/
+example :
+    let vA : VarDef := ⟨"VarA".toList, "ui2".toList, false, some "1".toList, some "10".toList, none, none⟩
+    let vS : VarDef := ⟨"VarS".toList, "string".toList, false, none, none, some ["a".toList, "b<&>".toList], none⟩
+    let vE : VarDef := ⟨"VarE".toList, "i4".toList, true, none, none, none, some "5".toList⟩
+    let act : SAct := ⟨"Act".toList, [⟨"A".toList, vA⟩, ⟨"S".toList, vS⟩], [⟨"R".toList, vE⟩, ⟨"S2".toList, vS⟩]⟩
+    let args : List (Str × Val) := [("S".toList, .str "b<&>".toList), ("A".toList, .int 5)]
+    let vals : List (Str × Val) := [("R".toList, .int (-7)), ("S2".toList, .str "a".toList)]
+    (∀ a ∈ act.ins, VarAgreeWF [] a.var) ∧ ArgsOk [] args act.ins ∧ ValsOk [] act vals := by
+  refine ⟨?_, ?_, ?_⟩
+  · intro a ha
+    simp only [List.mem_cons, List.not_mem_nil, or_false] at ha
+    rcases ha with rfl | rfl
+    · apply varAgreeWF_modelled (Or.inl (by decide)) (by decide)
+      · intro s h; simp at h; rcases h with rfl | rfl <;> decide
+      · intro s h; simp at h; rcases h with rfl | rfl <;> decide
+      · intro a ha; simp at ha
+    · apply varAgreeWF_modelled (Or.inr (Or.inl (by decide))) (by decide)
+      · intro s h; simp at h; rcases h with rfl | rfl <;> decide
+      · intro s h; simp at h
+      · intro a ha v hv
+        simp at ha
+        rcases ha with rfl | rfl
+        · have e : inp [] "string".toList "a".toList = some (.str "a".toList) := by decide
+          have : some v = some (.str "a".toList) := hv.symm.trans e
+          cases this; decide
+        · have e : inp [] "string".toList "b<&>".toList = some (.str "b<&>".toList) := by decide
+          have : some v = some (.str "b<&>".toList) := hv.symm.trans e
+          cases this; decide
+  · intro a ha
+    simp only [List.mem_cons, List.not_mem_nil, or_false] at ha
+    rcases ha with rfl | rfl
+    · exact ⟨.int 5, by decide, by decide, by decide⟩
+    · exact ⟨.str "b<&>".toList, by decide, by decide, by decide⟩
+  · intro p hp
+    simp only [List.mem_cons, List.not_mem_nil, or_false] at hp
+    rcases hp with rfl | rfl
+    · exact ⟨⟨"R".toList, ⟨"VarE".toList, "i4".toList, true, none, none, none, some "5".toList⟩⟩, by decide, by decide, by decide⟩
+    · exact ⟨⟨"S2".toList, ⟨"VarS".toList, "string".toList, false, none, none, some ["a".toList, "b<&>".toList], none⟩⟩,
+        by decide, by decide, by decide⟩
 
 /-- The domain of `call_roundtrip` is "names distinct per action **and direction**": `hnd` speaks of
     the in-arguments only and `ValsOk` looks results up among the out-arguments only, so an action
